@@ -23,7 +23,9 @@ package main
 
 
 // ---------------------------------------------------------------------------------------------
-// Ghost observation of what is queued to sessions: outCount[s] messages have been queued to session s.
+// Ghost observation of what is handed to sessions: outCount[s] messages have been passed to s.queueOut (whether the
+// session's buffer accepted them is the session's business: a full buffer drops the message and the caller detaches
+// the session).
 // ---------------------------------------------------------------------------------------------
 //@ ghost var outCount map[int]int
 
@@ -31,8 +33,7 @@ package main
 //@ func (s *Session) queueOut(msg *ServerComMessage) (ok bool)
 //@   trusted
 //@   modifies outCount[s]
-//@   ensures ok ==> outCount[s] == old(outCount[s]) + 1 || s == nil
-//@   ensures !ok ==> outCount[s] == old(outCount[s])
+//@   ensures outCount[s] == old(outCount[s]) + 1
 
 // broadcastToSessions fans a message out; a stuck session is detached, which can end a call in progress and
 // thereby publish a replacement message (so lastID may grow), but never lowers lastID or renames the topic.
@@ -52,6 +53,8 @@ package main
 //@   ensures [C01] failed_keeps: err != nil ==> t.lastID == old(t.lastID) && rowMax[t.name] == old(rowMax[t.name])
 //@   ensures [C01] advanced:     err == nil ==> t.lastID >= old(t.lastID) + 1
 //@   ensures [C01] same_topic:   t.name == old(t.name)
+//@   assert at call Save [C03] writer: t.cat == types.TopicCatSys || (effMode(t, asUid) & types.ModeWrite) != 0
+//@   ensures [C03] denied: old(t.cat != types.TopicCatSys && (effMode(t, asUid) & types.ModeWrite) == 0) ==> err != nil && t.lastID == old(t.lastID) && rowMax == old(rowMax) && hwm == old(hwm) && outCount[msg.sess] == old(outCount[msg.sess]) + 1 && (forall s int :: s != ref(msg.sess) ==> outCount[s] == old(outCount[s]))
 //@   assert at call Save [C01] seq_is_next: $1.SeqId == old(t.lastID) + 1 && t.lastID == old(t.lastID) && $1.Topic == t.name
 //@   assert at call broadcastToSessions [C01] data_seq: t.lastID == old(t.lastID) + 1 && $1.Data != nil && $1.Data.SeqId == t.lastID
 //@   modifies *
@@ -100,4 +103,17 @@ package main
 //@ func initTopicSys(t *Topic) (err error)
 //@   requires [C01] t != nil && rowMax[t.name] <= hwm[t.name]
 //@   ensures [C01] lastID_restored: err == nil ==> t.lastID == hwm[t.name] && rowMax[t.name] <= t.lastID
+//@   modifies *
+
+// ---------------------------------------------------------------------------------------------
+// C03: only effective writers can add a message
+// ---------------------------------------------------------------------------------------------
+//@ spec func topicBlocked(t *Topic) bool { return (t.status & (topicStatusPaused | topicStatusMarkedDeleted | topicStatusReadOnly)) != 0 }
+
+//@ func (t *Topic) handlePubBroadcast(msg *ClientComMessage)
+//@   requires [C03] t != nil && msg != nil && msg.sess != nil && msg.Pub != nil
+//@   requires [C03] rowMax[t.name] <= t.lastID
+//@   assert at call saveAndBroadcastMessage [C03] live: !topicBlocked(t)
+//@   ensures [C03] blocked_no_effect: old(topicBlocked(t)) ==> t.lastID == old(t.lastID) && rowMax == old(rowMax) && hwm == old(hwm)
+//@   ensures [C03] blocked_one_reply: old(topicBlocked(t)) ==> outCount[msg.sess] == old(outCount[msg.sess]) + 1 && (forall s int :: s != ref(msg.sess) ==> outCount[s] == old(outCount[s]))
 //@   modifies *
